@@ -32,21 +32,31 @@ func idxIn(b *ssa.BasicBlock, ins ssa.Instruction) int {
 // `from`) and returns the first instruction satisfying target that can be reached along a
 // path which executes no instruction satisfying avoid and takes no edge satisfying cut.
 func reach(fn *ssa.Function, from ssa.Instruction, target, avoid instrPred, cut edgePred) ssa.Instruction {
+	return reach0(fn, from, target, avoid, cut, true)
+}
+
+// reach0: with sensitive == true the walk remembers the edge it entered a block by, and a branch
+// whose condition is decided by the φ-inputs of that edge (constants, nil, values known non-nil at
+// the predecessor) only follows the decided successor. This is what makes the rules indifferent to
+// `a && b` lowering and to helpers that return a verdict or an error (after inlining, the verdict is
+// a φ of constants in the continuation block).
+func reach0(fn *ssa.Function, from ssa.Instruction, target, avoid instrPred, cut edgePred, sensitive bool) ssa.Instruction {
 	if len(fn.Blocks) == 0 {
 		return nil
 	}
 	type start struct {
-		b *ssa.BasicBlock
-		i int
+		p, b *ssa.BasicBlock
+		i    int
 	}
+	type key struct{ p, b *ssa.BasicBlock }
 	var work []start
-	visited := map[*ssa.BasicBlock]bool{}
+	visited := map[key]bool{}
 	if from == nil {
-		work = append(work, start{fn.Blocks[0], 0})
-		visited[fn.Blocks[0]] = true
+		work = append(work, start{nil, fn.Blocks[0], 0})
+		visited[key{nil, fn.Blocks[0]}] = true
 	} else {
 		b := from.Block()
-		work = append(work, start{b, idxIn(b, from) + 1})
+		work = append(work, start{nil, b, idxIn(b, from) + 1})
 	}
 	for len(work) > 0 {
 		s := work[len(work)-1]
@@ -65,17 +75,156 @@ func reach(fn *ssa.Function, from ssa.Instruction, target, avoid instrPred, cut 
 		if stopped {
 			continue
 		}
-		for _, succ := range s.b.Succs {
+		succs := s.b.Succs
+		if sensitive && s.p != nil && len(succs) == 2 {
+			if val, known := condFromPred(fn, s.b, s.p); known {
+				if val {
+					succs = succs[:1]
+				} else {
+					succs = succs[1:]
+				}
+			}
+		}
+		for _, succ := range succs {
 			if cut != nil && cut(s.b, succ) {
 				continue
 			}
-			if !visited[succ] {
-				visited[succ] = true
-				work = append(work, start{succ, 0})
+			k := key{s.b, succ}
+			if !sensitive {
+				k = key{nil, succ}
+			}
+			if !visited[k] {
+				visited[k] = true
+				work = append(work, start{s.b, succ, 0})
 			}
 		}
 	}
 	return nil
+}
+
+var condCache = map[[2]*ssa.BasicBlock]int8{}
+
+// condFromPred: the value of b's branch condition when b is entered from p, if the φ-inputs of that
+// edge decide it.
+func condFromPred(fn *ssa.Function, b, p *ssa.BasicBlock) (bool, bool) {
+	ck := [2]*ssa.BasicBlock{b, p}
+	if c, ok := condCache[ck]; ok {
+		return c == 1, c != 0
+	}
+	res := int8(0)
+	defer func() { condCache[ck] = res }()
+	ifi := blockIf(b)
+	if ifi == nil {
+		return false, false
+	}
+	pi := -1
+	for i, q := range b.Preds {
+		if q == p {
+			pi = i
+		}
+	}
+	if pi < 0 {
+		return false, false
+	}
+	// substitute the φs of b by their input from p
+	subst := func(v ssa.Value) ssa.Value {
+		for k := 0; k < 4; k++ {
+			phi, ok := v.(*ssa.Phi)
+			if !ok || phi.Block() != b || pi >= len(phi.Edges) {
+				return v
+			}
+			v = phi.Edges[pi]
+		}
+		return v
+	}
+	var eval func(v ssa.Value, d int) (bool, bool)
+	eval = func(v ssa.Value, d int) (bool, bool) {
+		if d > 6 {
+			return false, false
+		}
+		v = subst(v)
+		if c, isK := constBool(v); isK {
+			return c, true
+		}
+		ins, isIns := v.(ssa.Instruction)
+		if isIns && ins.Block() != b {
+			return false, false // computed elsewhere: not decided by the edge
+		}
+		switch x := v.(type) {
+		case *ssa.UnOp:
+			if x.Op == token.NOT {
+				if c, ok := eval(x.X, d+1); ok {
+					return !c, true
+				}
+			}
+		case *ssa.BinOp:
+			// integer comparison of values the edge makes constant (first iteration of a range loop
+			// over a fixed-size array: φ(-1)+1 < N)
+			if a, okA := intFromPred(x.X, b, pi, 0); okA {
+				if c, okC := intFromPred(x.Y, b, pi, 0); okC {
+					switch x.Op {
+					case token.LSS:
+						return a < c, true
+					case token.LEQ:
+						return a <= c, true
+					case token.GTR:
+						return a > c, true
+					case token.GEQ:
+						return a >= c, true
+					case token.EQL:
+						return a == c, true
+					case token.NEQ:
+						return a != c, true
+					}
+				}
+			}
+			if x.Op != token.EQL && x.Op != token.NEQ {
+				return false, false
+			}
+			l, r := subst(x.X), subst(x.Y)
+			var other ssa.Value
+			switch {
+			case isNilConst(l):
+				other = r
+			case isNilConst(r):
+				other = l
+			default:
+				return false, false
+			}
+			if isNilConst(other) {
+				return x.Op == token.EQL, true
+			}
+			if knownNonNilAt(fn, other, p) {
+				return x.Op == token.NEQ, true
+			}
+		}
+		return false, false
+	}
+	if c, ok := eval(ifi.Cond, 0); ok {
+		if c {
+			res = 1
+		} else {
+			res = 2
+		}
+		return c, true
+	}
+	return false, false
+}
+
+// knownNonNilAt: v cannot be nil when control is at the end of block p.
+func knownNonNilAt(fn *ssa.Function, v ssa.Value, p *ssa.BasicBlock) bool {
+	switch v.(type) {
+	case *ssa.MakeInterface, *ssa.Alloc, *ssa.MakeSlice, *ssa.MakeMap, *ssa.MakeChan, *ssa.MakeClosure, *ssa.FieldAddr, *ssa.IndexAddr, *ssa.Function, *ssa.Global:
+		return true
+	}
+	if len(p.Instrs) == 0 {
+		return false
+	}
+	// every path to p takes an edge that establishes v != nil
+	hit := reach0(fn, nil, func(i ssa.Instruction) bool { return i == p.Instrs[0] }, nil, func(a, b *ssa.BasicBlock) bool {
+		return nilnessEdge(a, b, func(x ssa.Value) bool { return x == v }, false)
+	}, false)
+	return hit == nil && p != fn.Blocks[0]
 }
 
 // mustPass: every path from `from` to an instruction satisfying target executes an
@@ -468,6 +617,75 @@ func (w *World) srcExpr(pos token.Pos, want func(ast.Node) bool) string {
 	return ""
 }
 
+// srcExprNorm is srcExpr plus the same text with every local variable, parameter and receiver
+// replaced by ‹its type› (numbered from the second distinct variable of a type on).
+func (w *World) srcExprNorm(pos token.Pos, want func(ast.Node) bool) (string, string) {
+	f := w.fileOf(pos)
+	if f == nil {
+		return "", ""
+	}
+	var info *types.Info
+	tf := w.Fset.File(pos)
+	for _, p := range w.Pkgs {
+		for _, sf := range p.Syntax {
+			if w.Fset.File(sf.Pos()) == tf {
+				info = p.TypesInfo
+			}
+		}
+	}
+	path, _ := astutil.PathEnclosingInterval(f, pos, pos)
+	for _, n := range path {
+		if !want(n) {
+			continue
+		}
+		raw := exprText(w.Fset, n)
+		if info == nil {
+			return raw, raw
+		}
+		type saved struct {
+			id   *ast.Ident
+			name string
+		}
+		var undo []saved
+		names := map[*types.Var]string{}
+		perType := map[string]int{}
+		ast.Inspect(n, func(m ast.Node) bool {
+			id, ok := m.(*ast.Ident)
+			if !ok {
+				return true
+			}
+			obj := info.Uses[id]
+			if obj == nil {
+				obj = info.Defs[id]
+			}
+			v, ok := obj.(*types.Var)
+			if !ok || v.IsField() || v.Parent() == nil || v.Pkg() == nil || v.Parent() == v.Pkg().Scope() {
+				return true
+			}
+			nm, seen := names[v]
+			if !seen {
+				ts := types.TypeString(v.Type(), func(*types.Package) string { return "" })
+				ts = strings.TrimPrefix(ts, "*")
+				perType[ts]++
+				nm = "‹" + ts + "›"
+				if perType[ts] > 1 {
+					nm += fmt.Sprint(perType[ts])
+				}
+				names[v] = nm
+			}
+			undo = append(undo, saved{id, id.Name})
+			id.Name = nm
+			return true
+		})
+		norm := exprText(w.Fset, n)
+		for _, u := range undo {
+			u.id.Name = u.name
+		}
+		return raw, norm
+	}
+	return "", ""
+}
+
 // valueText renders an SSA value as an access path when it is one, else its SSA name.
 func valueText(v ssa.Value) string {
 	switch x := v.(type) {
@@ -643,4 +861,51 @@ func successReturns(f *ssa.Function) instrPred {
 		}
 		return isNilConst(res(ret, res0.Len()-1))
 	}
+}
+
+// intFromPred: the integer value of v in block b when b is entered through its pi-th predecessor.
+func intFromPred(v ssa.Value, b *ssa.BasicBlock, pi int, d int) (int64, bool) {
+	if d > 5 {
+		return 0, false
+	}
+	if k, ok := constInt(v); ok {
+		if c, isC := v.(*ssa.Const); isC && c.Value != nil {
+			if bt, isB := c.Type().Underlying().(*types.Basic); isB && bt.Info()&types.IsInteger != 0 {
+				return k, true
+			}
+		}
+		return 0, false
+	}
+	switch x := v.(type) {
+	case *ssa.Phi:
+		if x.Block() == b && pi < len(x.Edges) {
+			return intFromPred(x.Edges[pi], b, pi, d+1)
+		}
+	case *ssa.BinOp:
+		if x.Block() != b {
+			return 0, false
+		}
+		l, ok1 := intFromPred(x.X, b, pi, d+1)
+		r, ok2 := intFromPred(x.Y, b, pi, d+1)
+		if ok1 && ok2 {
+			switch x.Op {
+			case token.ADD:
+				return l + r, true
+			case token.SUB:
+				return l - r, true
+			}
+		}
+	case *ssa.Call:
+		// len of a fixed-size array
+		if bi, ok := x.Call.Value.(*ssa.Builtin); ok && bi.Name() == "len" && len(x.Call.Args) == 1 {
+			t := x.Call.Args[0].Type().Underlying()
+			if p, ok := t.(*types.Pointer); ok {
+				t = p.Elem().Underlying()
+			}
+			if a, ok := t.(*types.Array); ok {
+				return a.Len(), true
+			}
+		}
+	}
+	return 0, false
 }
